@@ -290,6 +290,9 @@ func (tt *TagTree) flushSingleTagsTree(tagKey string, tagsTreeBase string) error
 	if err != nil {
 		return err
 	}
+	if !isTagKeySafeForPath(tagKey) {
+		return fmt.Errorf("TagTree.flushSingleTagsTree: tag key %q is not a valid file name", tagKey)
+	}
 	fName := getTagsTreeFileName(tagKey, tagsTreeBase)
 	encodedTT, err := tt.encodeTagsTree()
 	if err != nil {
